@@ -15,6 +15,7 @@ Verdict(c) ==
   LET A == IF c.transpose THEN LsTranspose(c.A, c.n) ELSE c.A IN
   IF c.out # "ok" THEN "Raised"
   ELSE IF ~c.unchanged THEN "ArgumentsUnmodified"
+  ELSE IF c.what = "near_one" THEN (IF LsNearOneOK(c.k, c.obs) THEN "ok" ELSE "LeastSolutionNearTheRadiusOfConvergence")
   ELSE IF Len(c.X) # Len(c.b) \/ \E q \in DOMAIN c.X : Len(c.X[q]) # c.n THEN "ResultShape"
   ELSE IF c.what = "multi_mv" THEN
      (IF \E q \in DOMAIN c.b : \E i \in 1..c.n : ~In(LsMatVec(c.sr, A, c.n, c.b[q])[i], c.X[q][i]) THEN "MultiMvIsMatrixVectorProduct" ELSE "ok")
